@@ -73,6 +73,8 @@ func (p *Scheduler) Run(ctx context.Context) error {
 
 	p.logInfof("proxy connected")
 
+	var proxyTask *lib.Task
+
 	for {
 		if p.proxy.GetDest().String() != p.primaryDest.String() {
 			err := p.proxy.SetDestWithoutAutoread(ctx, p.primaryDest, nil)
@@ -84,7 +86,19 @@ func (p *Scheduler) Run(ctx context.Context) error {
 				return err
 			}
 		}
-		proxyTask := lib.NewTaskFunc(p.proxy.Run)
+		// after a failed destination change the proxy is still relaying: a second Run must not be
+		// started next to it, only a proxy that has exited is started again
+		if proxyTask != nil {
+			select {
+			case <-proxyTask.Done():
+				proxyTask = nil
+			default:
+			}
+		}
+		startProxy := proxyTask == nil
+		if startProxy {
+			proxyTask = lib.NewTaskFunc(p.proxy.Run)
+		}
 
 		// go func() {
 		// 	select {
@@ -102,7 +116,9 @@ func (p *Scheduler) Run(ctx context.Context) error {
 		// 	}
 		// }()
 
-		proxyTask.Start(ctx)
+		if startProxy {
+			proxyTask.Start(ctx)
+		}
 
 		select {
 		case <-proxyTask.Done():
